@@ -1,0 +1,61 @@
+//! Verification hooks (feature `verif`, off by default).
+//!
+//! With the feature enabled every access through [`crate::atomic::Atom`]
+//! calls [`before`] right before and [`after`] right after the access.
+//! Unless a harness installs callbacks with [`install`], both are no-ops.
+//! The module also re-exports a few crate-private items so that an external
+//! harness can drive the compiled code directly. Nothing here changes the
+//! behaviour of the allocator.
+
+use core::sync::atomic::{AtomicUsize, Ordering};
+
+pub use crate::bitfield::{Bitfield, RowId};
+pub use crate::local::Reservation;
+pub use crate::lower::Lower;
+pub use crate::trees::Trees;
+
+pub const LOAD: u8 = 0;
+pub const STORE: u8 = 1;
+pub const SWAP: u8 = 2;
+pub const CAS: u8 = 3;
+
+/// Called before an access: `(kind, address, size in bytes)`
+pub type Before = fn(u8, usize, usize);
+/// Called after an access: `(kind, address, size, old value, new value, success)`
+pub type After = fn(u8, usize, usize, u64, u64, bool);
+
+static BEFORE: AtomicUsize = AtomicUsize::new(0);
+static AFTER: AtomicUsize = AtomicUsize::new(0);
+
+/// Install the callbacks (process wide).
+pub fn install(before: Before, after: After) {
+    BEFORE.store(before as usize, Ordering::SeqCst);
+    AFTER.store(after as usize, Ordering::SeqCst);
+}
+/// Remove the callbacks.
+pub fn uninstall() {
+    BEFORE.store(0, Ordering::SeqCst);
+    AFTER.store(0, Ordering::SeqCst);
+}
+
+#[inline]
+pub(crate) fn before(kind: u8, addr: usize, size: usize) {
+    let f = BEFORE.load(Ordering::Relaxed);
+    if f != 0 {
+        let f: Before = unsafe { core::mem::transmute(f) };
+        f(kind, addr, size);
+    }
+}
+#[inline]
+pub(crate) fn after(kind: u8, addr: usize, size: usize, old: u64, new: u64, ok: bool) {
+    let f = AFTER.load(Ordering::Relaxed);
+    if f != 0 {
+        let f: After = unsafe { core::mem::transmute(f) };
+        f(kind, addr, size, old, new, ok);
+    }
+}
+
+/// The compiled row search (`bitfield::first_zeros_aligned`).
+pub fn first_zeros_aligned(v: u64, order: usize) -> Option<(u64, usize)> {
+    crate::bitfield::verif_first_zeros_aligned(v, order)
+}
